@@ -362,6 +362,9 @@ class SimLock(object):
         if W is not None and W.sc.get('contended_lock') and getattr(W, 'abandoning', False) and (not blocking or timeout >= 0):
             W.rec({"k": "lock", "op": "try_failed"})
             return False
+        if W is not None and W.sc.get('writer_blocked') and blocking and timeout < 0 and _writer_blocked_now(W):
+            W.rec({"k": "stall", "why": "the event loop waits for the write lock while a sender is blocked on back-pressure"})
+            raise Watchdog('the loop thread would wait for a sender that cannot finish')
         return self._l.acquire(blocking, timeout)
 
     def release(self):
@@ -376,6 +379,19 @@ class SimLock(object):
 
     def __exit__(self, *a):
         self.release()
+
+
+def _writer_blocked_now(w):
+    """Scenario key 'writer_blocked': from Ready on, an (imaginary) application thread is inside sendall() - the peer does not read
+    until it has been read from - and holds the write lock until the connection is over (a failed or ended read breaks its sendall too).
+    Only used with streams that need no automatic reply, so that the loop has no business with the write lock while it is reading."""
+    ready = over = False
+    for r in w.log:
+        if r['k'] == 'ev' and r.get('name') == 'ready':
+            ready = True
+        elif r['k'] == 'rd' and r.get('what') != 'data':
+            over = True
+    return ready and not over
 
 
 class _SimEnviron(object):
